@@ -339,6 +339,12 @@ type c18PeerRcpt struct {
 type c18PeerCase struct {
 	Txns     [][]c18PeerRcpt `json:"txns"`
 	Callback bool            `json:"callback"`
+	// HangUp: the peer sends the final replies of the last transaction and
+	// closes the connection in the same step, and the client's connection
+	// reports the end of the stream together with the last octets (one Read
+	// returns n > 0 and io.EOF, as crypto/tls does when the close alert
+	// arrives with the last record). The replies arrived in full all the same.
+	HangUp bool `json:"hang_up,omitempty"`
 }
 
 func c18PeerServe(conn net.Conn, c c18PeerCase) {
@@ -401,18 +407,29 @@ func c18PeerServe(conn net.Conn, c c18PeerCase) {
 					break
 				}
 			}
+			var fb strings.Builder
 			for i, a := range accepted {
 				switch {
 				case verdicts[i] && multis[i]:
-					io.WriteString(conn, "250-2.1.5 <"+a+"> delivered\r\n250 2.1.5 to the inbox\r\n")
+					fb.WriteString("250-2.1.5 <" + a + "> delivered\r\n250 2.1.5 to the inbox\r\n")
 				case verdicts[i]:
-					io.WriteString(conn, "250 2.1.5 <"+a+"> delivered\r\n")
+					fb.WriteString("250 2.1.5 <" + a + "> delivered\r\n")
 				case multis[i]:
-					io.WriteString(conn, "552-5.2.2 <"+a+"> verdict-for-"+a+"\r\n552 5.2.2 mailbox full\r\n")
+					fb.WriteString("552-5.2.2 <" + a + "> verdict-for-" + a + "\r\n552 5.2.2 mailbox full\r\n")
 				default:
-					io.WriteString(conn, "552 5.2.2 <"+a+"> verdict-for-"+a+"\r\n")
+					fb.WriteString("552 5.2.2 <" + a + "> verdict-for-" + a + "\r\n")
+				}
+				if !c.HangUp {
+					// one segment per reply
+					io.WriteString(conn, fb.String())
+					fb.Reset()
 				}
 			}
+			if e, isEnd := conn.(*harness.End); c.HangUp && isEnd && ti == len(c.Txns)-1 {
+				e.WriteFinal([]byte(fb.String()))
+				return
+			}
+			io.WriteString(conn, fb.String())
 			accepted, verdicts, multis = nil, nil, nil
 		case up == "RSET", up == "NOOP":
 			io.WriteString(conn, "250 2.0.0 ok\r\n")
@@ -428,6 +445,7 @@ func c18PeerServe(conn net.Conn, c c18PeerCase) {
 func c18PeerRun(c c18PeerCase) Verdict {
 	hub := harness.NewHub()
 	clEnd, svEnd := harness.Pair(hub)
+	clEnd.SetEOFWithData(c.HangUp)
 	served := make(chan struct{})
 	go func() { defer close(served); c18PeerServe(svEnd, c) }()
 	cl := smtp.NewClientLMTP(clEnd)
@@ -529,6 +547,18 @@ func c18PeerRun(c c18PeerCase) Verdict {
 	if !ok {
 		return Verdict{Inconclusive: "watchdog in client run (peer)"}
 	}
+	hungUp := false
+	if c.HangUp && len(c.Txns) > 0 {
+		for _, rc := range c.Txns[len(c.Txns)-1] {
+			hungUp = hungUp || rc.Code/10 == 25
+		}
+	}
+	if hungUp {
+		v.Classes = append(v.Classes, "peer_hangs_up_with_the_last_replies")
+		if setupErr != nil && strings.HasPrefix(setupErr.Error(), "final Noop:") {
+			setupErr = nil // the connection is gone, as scripted
+		}
+	}
 	if setupErr != nil {
 		return failf("client-call", "against the scripted peer a client call failed unexpectedly: %v", setupErr)
 	}
@@ -617,7 +647,7 @@ func TestC18(t *testing.T) {
 		return
 	}
 	c18Peer.rapidCheck(t, pickTier(1500, 12000), func(rt *rapid.T) c18PeerCase {
-		c := c18PeerCase{Callback: rapid.IntRange(0, 3).Draw(rt, "callback") != 0}
+		c := c18PeerCase{Callback: rapid.IntRange(0, 3).Draw(rt, "callback") != 0, HangUp: rapid.IntRange(0, 3).Draw(rt, "hang_up") == 0}
 		for i, n := 0, rapid.IntRange(1, 3).Draw(rt, "ntxn"); i < n; i++ {
 			var tx []c18PeerRcpt
 			for j, m := 0, rapid.IntRange(1, 3).Draw(rt, "nrcpt"); j < m; j++ {
